@@ -26,7 +26,6 @@ import (
 	"testing"
 	"time"
 
-	"git.torproject.org/pluggable-transports/snowflake.git/v2/common/bridgefingerprint"
 	"git.torproject.org/pluggable-transports/snowflake.git/v2/common/messages"
 	vh "git.torproject.org/pluggable-transports/snowflake.git/v2/common/zzverif"
 	"github.com/prometheus/client_golang/prometheus"
@@ -55,9 +54,16 @@ func bcSid(p int) string {
 	return base
 }
 
+// bcFP maps a fingerprint id to its hex text.  Distinct ids give distinct fingerprints, but both legal lengths
+// occur and some 32-byte fingerprints extend a 20-byte one of another id (2 extends 1, 4 extends the default).
 func bcFP(k int) string {
-	if k == 0 {
+	switch k {
+	case 0:
 		return bcDefaultFP
+	case 2:
+		return fmt.Sprintf("%040X", 1) + "AB00000000000000000000CD"
+	case 4:
+		return bcDefaultFP + "00000000000000000000EF01"
 	}
 	return fmt.Sprintf("%040X", k)
 }
@@ -80,7 +86,8 @@ type bcReq struct {
 	clients  int
 	fp       int // C: fingerprint id (0 = default, named or omitted)
 	omitFP   bool
-	sid      int // A: poll id the answer names
+	sid      int    // A: poll id the answer names
+	sidText  string // P: explicit session id (oracle-only scenarios with a re-used id); "" = bcSid(id)
 	started  time.Time
 	done     chan struct{}
 	finished time.Time
@@ -92,13 +99,13 @@ type bcReq struct {
 
 type bcInst struct {
 	lockDead bool // the package's snowflakeLock could not be acquired within the deadline
-	t       *testing.T
-	ctx     *BrokerContext
-	ipc     *IPC
-	bridges map[int]int // fp id -> url id
-	mu      sync.Mutex
-	reqs    []*bcReq
-	byKey   map[string]*bcReq
+	t        *testing.T
+	ctx      *BrokerContext
+	ipc      *IPC
+	bridges  map[int]int // fp id -> url id
+	mu       sync.Mutex
+	reqs     []*bcReq
+	byKey    map[string]*bcReq
 }
 
 func bcURL(u int) string { return fmt.Sprintf("wss://relay%d.example/", u) }
@@ -156,7 +163,11 @@ func (b *bcInst) start(r *bcReq) {
 		var resp []byte
 		switch r.kind {
 		case 'P':
-			body, _ := messages.EncodeProxyPollRequestWithRelayPrefix(bcSid(r.id), "standalone", r.wireNat, r.clients, "")
+			sidText := bcSid(r.id)
+			if r.sidText != "" {
+				sidText = r.sidText
+			}
+			body, _ := messages.EncodeProxyPollRequestWithRelayPrefix(sidText, "standalone", r.wireNat, r.clients, "")
 			err := b.ipc.ProxyPolls(messages.Arg{Body: body, RemoteAddr: "1.2.3.4:5"}, &resp)
 			if err != nil {
 				r.outcome = "err:" + err.Error()
@@ -337,14 +348,14 @@ func bcDecodedNat(w string) string {
 // quiet histories
 
 type bcQuiet struct {
-	inst    *bcInst
-	events  []string // annotated events for the model
-	waiting map[int]*bcReq // polls registered, unmatched, not timed out
-	matched map[int]*bcReq // client id -> poll request it was matched with, awaiting answer/timeout
-	early   map[int]int    // poll id -> early answer id buffered (fixed behaviour)
-	fails   []vh.Finding
+	inst                *bcInst
+	events              []string       // annotated events for the model
+	waiting             map[int]*bcReq // polls registered, unmatched, not timed out
+	matched             map[int]*bcReq // client id -> poll request it was matched with, awaiting answer/timeout
+	early               map[int]int    // poll id -> early answer id buffered (fixed behaviour)
+	fails               []vh.Finding
 	nextP, nextC, nextA int
-	desc    []string
+	desc                []string
 }
 
 func (q *bcQuiet) fail(key, detail string) {
@@ -703,7 +714,7 @@ func runQuiet(t *testing.T, seed int64, t0 time.Time) (line, real string, fails 
 
 type bcForced struct {
 	name  string
-	trace string // label sequence for the model (fixed = 1) for the schedule the template aims at
+	trace string                           // label sequence for the model (fixed = 1) for the schedule the template aims at
 	run   func(t *testing.T, inst *bcInst) // drives the real broker into that schedule
 	// alt: when the scheduler resolved the forced race the other way (both orders are legitimate
 	// behaviours), the observation containing `altWhen` is validated against `altTrace` instead.
@@ -721,7 +732,7 @@ func bcForcePollTimeoutVsMatch(t *testing.T, inst *bcInst) {
 		return
 	}
 	c := &bcReq{kind: 'C', id: 101, wireNat: "unknown", nat: "unknown"}
-	inst.start(c) // queues on the lock first
+	inst.start(c)                      // queues on the lock first
 	time.Sleep(700 * time.Millisecond) // the timer fires; the waiter queues behind the client
 	inst.ctx.snowflakeLock.Unlock()
 	// the client's own timeout then ends it (no answer is posted)
@@ -742,7 +753,7 @@ func bcForceAnswerVsClientTimeout(t *testing.T, inst *bcInst) {
 		return
 	}
 	a := &bcReq{kind: 'A', id: 201, sid: 1}
-	inst.start(a) // queues on the lock first
+	inst.start(a)                      // queues on the lock first
 	time.Sleep(700 * time.Millisecond) // client timer fires, its clean-up queues behind the answer's lookup
 	inst.ctx.snowflakeLock.Unlock()
 	bcWait(func() bool { return a.isDone() && c.isDone() }, 6*time.Second)
@@ -780,53 +791,7 @@ func bcForceTwoAnswers(t *testing.T, inst *bcInst) {
 	bcWait(func() bool { return a1.isDone() && a2.isDone() && c.isDone() }, 6*time.Second)
 }
 
-// A slow client: its matchSnowflake pops the proxy just before the proxy timeout, but its offer is sent
-// only after the waiter's timeout branch has run (the client goroutine was descheduled between the two
-// statements). The harness plays the client handler's statements itself, in that order.
-func bcForceSlowClient(t *testing.T, inst *bcInst) {
-	p := &bcReq{kind: 'P', id: 1, wireNat: "unrestricted", nat: "unrestricted"}
-	inst.start(p)
-	bcWait(func() bool { return inst.registered(1) }, 5*time.Second)
-	c := &bcReq{kind: 'C', id: 101, wireNat: "unknown", nat: "unknown", done: make(chan struct{}), started: time.Now()}
-	inst.mu.Lock()
-	inst.reqs = append(inst.reqs, c)
-	inst.byKey["C101"] = c
-	inst.mu.Unlock()
-	time.Sleep(time.Until(p.started.Add(time.Duration(ProxyTimeout)*time.Second - 300*time.Millisecond)))
-	popped := make(chan *Snowflake, 1)
-	go func() { popped <- inst.ipc.matchSnowflake("unknown") }()
-	var sf *Snowflake
-	select {
-	case sf = <-popped:
-	case <-time.After(5 * time.Second):
-	}
-	if sf == nil {
-		return // c stays pending
-	}
-	time.Sleep(900 * time.Millisecond) // the proxy timeout fires and its critical section runs
-	fp, _ := bridgefingerprint.FingerprintFromHexString(bcDefaultFP)
-	offer := &ClientOffer{natType: "unknown", sdp: []byte("offer-101"), fingerprint: fp.ToBytes()}
-	sent := make(chan struct{})
-	go func() { sf.offerChannel <- offer; close(sent) }()
-	select {
-	case <-sent:
-	case <-time.After(6 * time.Second):
-		return // nobody receives the offer: c stays pending
-	}
-	bcWait(p.isDone, 5*time.Second)
-	// no answer is posted: the client would time out and clean up
-	if inst.lock() {
-		inst.ctx.metrics.promMetrics.AvailableProxies.With(prometheus.Labels{"nat": sf.natType, "type": sf.proxyType}).Dec()
-		delete(inst.ctx.idToSnowflake, sf.id)
-		inst.ctx.snowflakeLock.Unlock()
-	}
-	c.outcome = "timeout"
-	c.finished = time.Now()
-	close(c.done)
-}
-
 var bcForcedTemplates = []bcForced{
-	{"slow-client-sends-after-timeout-branch", "pa:1:u:0,add:1,ca:101:k:0,cm:101:1,wt:1,wc:1,wl:1:101,wf:1,hr:1,ct:101,cf:101", bcForceSlowClient, "", ""},
 	{"poll-timeout-vs-client-match", "pa:1:u:0,add:1,wt:1,ca:101:k:0,cm:101:1,wc:1,wl:1:101,wf:1,hr:1,ct:101,cf:101", bcForcePollTimeoutVsMatch,
 		"p1=idle", "pa:1:u:0,add:1,wt:1,wc:1,hi:1,hr:1,ca:101:k:0,cd:101"},
 	{"answer-lookup-vs-client-timeout", "pa:1:u:0,add:1,ca:101:k:0,cm:101:1,wo:1:101,wf:1,hr:1,aa:201:1,ct:101,al:201,cf:101,as:201", bcForceAnswerVsClientTimeout,
@@ -852,6 +817,11 @@ func bcPropOfKey(key string) string {
 func runBrokerCore(t *testing.T, prop string) {
 	r := vh.Start(prop)
 	defer r.Finish()
+	if prop == "C04" && !vh.Serial() {
+		scDone := make(chan struct{})
+		go func() { runBrokerScenarios(t, r); close(scDone) }()
+		defer func() { <-scDone }()
+	}
 	nQuiet := r.N(120, 1200)
 	nStag := r.N(40, 300)
 	parallel := 400
@@ -947,6 +917,94 @@ func runBrokerCore(t *testing.T, prop string) {
 					"every client poll, proxy poll and proxy answer must get its response within the protocol waits plus slack")
 			} else if hu, hr, mp, g := inst.counts(); hu+hr+mp != 0 || int(g) != 0 {
 				r.OracleFail("leftover-registration:"+f.name, line, forced[i], "once all requests completed the broker must hold no registration")
+			}
+		}
+	}
+}
+
+// ---------------------------------------------------------------------------------------------
+// Oracle-only scenarios: legal histories outside the model's quantifier (the model identifies a poll with
+// its session id, so it says nothing about a proxy that re-uses an id while its earlier poll's match is
+// still in progress).  Only the property's own clauses are judged: every request completes within the
+// protocol waits plus slack, the lock is never held for good, and at quiescence nothing is registered, the
+// gauge is zero and a fresh client is denied.
+
+type bcScenario struct {
+	name string
+	run  func(t *testing.T, inst *bcInst) string // returns a description of what was driven
+}
+
+func bcSameSidRepoll(withAnswer bool) func(t *testing.T, inst *bcInst) string {
+	return func(t *testing.T, inst *bcInst) string {
+		p1 := &bcReq{kind: 'P', id: 1, wireNat: "unrestricted", nat: "unrestricted", sidText: "same-sid"}
+		inst.start(p1)
+		bcWait(func() bool { hu, hr, _, _ := inst.counts(); return hu+hr == 1 }, 5*time.Second)
+		c1 := &bcReq{kind: 'C', id: 101, wireNat: "unknown", nat: "unknown"}
+		inst.start(c1)
+		bcWait(p1.isDone, 5*time.Second) // matched: the proxy has the offer
+		p2 := &bcReq{kind: 'P', id: 2, wireNat: "unrestricted", nat: "unrestricted", sidText: "same-sid"}
+		inst.start(p2) // the same proxy polls again under the same id before it answers
+		bcWait(func() bool { hu, hr, _, _ := inst.counts(); return hu+hr == 1 }, 5*time.Second)
+		desc := "poll(same-sid) matched by client 101; second poll(same-sid) while client 101 still waits"
+		if withAnswer {
+			body, _ := messages.EncodeAnswerRequest("answer-201", "same-sid")
+			var resp []byte
+			done := make(chan struct{})
+			go func() { inst.ipc.ProxyAnswers(messages.Arg{Body: body, RemoteAddr: "1.2.3.4:5"}, &resp); close(done) }()
+			select {
+			case <-done:
+			case <-time.After(15 * time.Second):
+				desc += "; answer request for same-sid STILL PENDING after 15 s"
+			}
+			desc += "; answer posted for same-sid"
+		}
+		bcWait(func() bool { return !inst.anyPending() }, bcTimeout()+bcTimeout())
+		return desc
+	}
+}
+
+var bcScenarios = []bcScenario{
+	{"same-sid-repoll-while-matched/answered", bcSameSidRepoll(true)},
+	{"same-sid-repoll-while-matched/unanswered", bcSameSidRepoll(false)},
+}
+
+func runBrokerScenarios(t *testing.T, r *vh.Run) {
+	var wg sync.WaitGroup
+	type sres struct {
+		desc, real string
+		inst       *bcInst
+	}
+	out := make([]sres, len(bcScenarios))
+	for i, sc := range bcScenarios {
+		wg.Add(1)
+		go func(i int, sc bcScenario) {
+			defer wg.Done()
+			inst := newBcInst(t, map[int]int{0: 100})
+			desc := sc.run(t, inst)
+			bcWait(func() bool { return !inst.anyPending() }, 3*time.Second)
+			out[i] = sres{desc, inst.summary(inst.anyPending()), inst}
+		}(i, sc)
+	}
+	wg.Wait()
+	for i, sc := range bcScenarios {
+		o := out[i]
+		line := "scenario " + sc.name + ": " + o.desc
+		r.Case("scenario/"+sc.name, line, true)
+		switch {
+		case o.inst.lockDead:
+			r.OracleFail("broker-lock-held-forever:"+sc.name, line, o.real, "the broker's matching lock was not released for 8 s")
+		case o.inst.anyPending():
+			r.OracleFail("request-never-completes:"+sc.name, line, o.real, "every request must get its response within the protocol waits plus slack")
+		default:
+			if hu, hr, mp, g := o.inst.counts(); hu+hr+mp != 0 || int(g) != 0 {
+				r.OracleFail("leftover-registration:"+sc.name, line, fmt.Sprintf("%s heapU=%d heapR=%d map=%d gauge=%v", o.real, hu, hr, mp, g),
+					"once all requests completed the broker must hold no registration and report zero available proxies")
+				continue
+			}
+			fresh := &bcReq{kind: 'C', id: 999, wireNat: "unknown"}
+			o.inst.start(fresh)
+			if !bcWait(fresh.isDone, 5*time.Second) || fresh.outcome != "denied" {
+				r.OracleFail("fresh-client-not-denied-at-quiescence:"+sc.name, line, fmt.Sprintf("outcome %q", fresh.outcome), "a fresh client must be told there are no proxies")
 			}
 		}
 	}
